@@ -57,6 +57,19 @@ def gen_source(mon, k, n):
         yield make_row(k, i)
 
 
+class LazySized:
+    """A lazily produced source that also knows its length (a query result, a file-backed sequence)."""
+
+    def __init__(self, mon, k, n):
+        self.mon, self.k, self.n = mon, k, n
+
+    def __len__(self):
+        return self.n
+
+    def __iter__(self):
+        return gen_source(self.mon, self.k, self.n)
+
+
 @core.builder('c06_rowfn')
 def _b_rowfn(step, env):
     def f(row):
@@ -128,7 +141,7 @@ SYMS = {
 }
 CONTROL = {'sort_rows': S('sort_rows', '{_i}')}      # buffering step: the monitor's positive control
 SIGMA = list(SYMS)
-SOURCES = ['gen1', 'gen2', 'tuple1', 'tuple-limit', 'genlist', 'gen1-take10', 'tuple1-take10', 'gen1-badrow']
+SOURCES = ['gen1', 'gen2', 'tuple1', 'tuple-limit', 'genlist', 'gen1-take10', 'tuple1-take10', 'gen1-badrow', 'sized1']
 
 
 def run_one(srckind, path, n):
@@ -145,6 +158,8 @@ def run_one(srckind, path, n):
         if srckind in ('gen1', 'gen2'):
             for k in range(nsrc):
                 links.append(gen_source(mon, k, n))
+        elif srckind == 'sized1':
+            links.append(LazySized(mon, 0, n))
         elif srckind == 'genlist':
             # an iterable of lists (columns col0, col1, ...): renamed so that the steps of the alphabet still apply
             names = [f[0] for f in FIELDS]
